@@ -74,7 +74,8 @@ pub fn analyse_variant_groups<IntT: for<'a> UInt<'a>>(
             })
         })
         .collect();
-    sorted_keys.sort_by(|a, b| b.1.partial_cmp(&a.1).unwrap()); // Sort by ratio, descending
+    // Sort by ratio, descending; ties by key, so that the order never depends on the hash map
+    sorted_keys.sort_by(|a, b| b.1.partial_cmp(&a.1).unwrap().then_with(|| a.0.cmp(b.0)));
 
     log::info!("Processing SNPs");
 
